@@ -2,7 +2,7 @@
 Require Extraction.
 Require Import ExtrOcamlBasic.
 From Coq Require Import ZArith List Bool.
-From V Require Import rset.RSetModel rset.RSetSpec rset.RSetHist rset.RSetLit rset.RSetHeapq.
+From V Require Import rset.RSetModel rset.RSetSpec rset.RSetHist rset.RSetLit rset.RSetHeapq rset.RSetHist2.
 Import ListNotations.
 Open Scope Z_scope.
 
@@ -74,6 +74,10 @@ Definition dispatch (n : Z) (args : list Z) : list Z :=
   | 11 => hist_dispatch heap_last args
   | 12 => hist_spec_dispatch args
   | 13 => hist_dispatch heap_py args
+  | 14 => match args with
+          | c :: r => [b2z (mild_history heap_first (z2b c) (dec_ops (length r) r))]
+          | [] => [-1]
+          end
   | _ => [-1]
   end.
 
